@@ -55,6 +55,8 @@ T_hiesc  == <<BS, 51, 48, 51, BS, 50, 53, 49>>        \* \303\251    -> the same
 T_lone   == <<97, BS, 98>>                            \* a\b         lone backslash, not an escape
 T_bs2    == <<97, BS, 49, 48>>                        \* a\10        backslash + two digits, not an escape
 T_dotted == <<DOT, 97, DOT>>                          \* .a.
+T_lat1   == <<BS, 51, 53, 49, 97>>                    \* \351a        -> the Latin-1 byte 0xE9, "a": a name that is not UTF-8
+T_ff     == <<97, BS, 51, 55, 55>>                    \* a\377        -> "a", 0xFF
 S_root   == <<DOT>>                                   \* .
 S_d      == <<DOT, SL, 100>>                          \* ./d
 S_dsp    == <<DOT, SL, 100, BS, 48, 52, 48, 101>>     \* ./d\040e     -> "./d e"
@@ -63,7 +65,7 @@ S_d1     == <<DOT, SL, 100, 49>>                      \* ./d1         (its name 
 
 NamesAlign  == {T_a}
 NamesAlign2 == {T_a, T_b}
-NamesAll    == {T_a, T_sp, T_bsoct, T_colon, T_colesc, T_sub, T_hi, T_hiesc, T_lone, T_bs2, T_dotted}
+NamesAll    == {T_a, T_sp, T_bsoct, T_colon, T_colesc, T_sub, T_hi, T_hiesc, T_lone, T_bs2, T_dotted, T_lat1, T_ff}
 StreamsOne  == {S_root}
 StreamsAll  == {S_root, S_d, S_dsp, S_deep, S_d1}
 StreamsTwo  == {S_root, S_d}
